@@ -195,5 +195,22 @@ func PanicKey(p any, stack string) string {
 			break
 		}
 	}
-	return "panic:" + strings.TrimPrefix(frame, "github.com/basecomplextech/spec") + ":" + msg
+	return "panic@" + strings.TrimPrefix(frame, "github.com/basecomplextech/spec") + ":" + normNumbers(msg)
+}
+
+func normNumbers(s string) string {
+	var b strings.Builder
+	prevDigit := false
+	for _, r := range s {
+		if r >= '0' && r <= '9' {
+			if !prevDigit {
+				b.WriteByte('#')
+			}
+			prevDigit = true
+			continue
+		}
+		prevDigit = false
+		b.WriteRune(r)
+	}
+	return b.String()
 }
